@@ -18,6 +18,18 @@
     delivers more than max_request_bytes, and never for a body within the cap.
 (d) `_set_error_response` (no stubs) yields a decodable Arrow IPC body for every status/exception
     class of (b).
+(e) the exchange route: the real `_ExchangeResource.on_post` + the real `_run_stream_exchange_sync`
+    with `pyarrow.ipc` replaced by a reader whose open / first read raises a *symbolic* member of
+    the classes pyarrow and the wire layer raise for client bytes (ArrowInvalid, OSError,
+    StopIteration, EOFError, TypeError, KeyError, ValueError, IndexError, RpcError, VersionError,
+    RuntimeError, NotImplementedError) or yields a batch without state token: nothing escapes the
+    resource, the answer is a 400 Arrow error response.  Replay: real bytes on the real app.
+(f) every `raise falcon.X(...)` site of the live _middleware.py (AST scan; a site without a scenario
+    is a harness error): the REAL middleware instance of a REAL `make_wsgi_app` runs on a real
+    `falcon.Request`, what it raises goes through the app's own `_handle_exception` (the serializer
+    make_wsgi_app installed): status per table; body a decodable Arrow IPC EXCEPTION batch unless the
+    status is 401 or 415 (503 = authority unreachable, not client-controlled, not asserted).
+    Replay: the same request through make_sync_client.
 """
 
 from __future__ import annotations
@@ -61,8 +73,9 @@ BOUNDS = (
     "failing validation step in {read, name, version gate (real), deserialize, signature, params} x 9 exception classes x 5 protocol-version situations; max-bytes: path = prefix + '/' + any string len<=%d, unbounded ints" % (_LM, _LM, pick(8, 10))
 )
 OUTSIDE = (
-    "Falcon routing and Falcon's own error responses (405, 404 sink); real malformed IPC bytes through pyarrow; the exchange dispatcher (_run_stream_exchange_sync: tokens, see C12/C13); "
-    "content-encoding 415/400 (_CompressionMiddleware, see C17/C19); 401 (C20/C21); everything after request validation (the method call itself); the combined request space"
+    "Falcon routing and Falcon's own error responses (405, 404 sink); which exception class pyarrow raises for which malformed bytes (the classes are a symbolic dimension; "
+    "that unary/init answer 200+marker rather than 400 to an OSError-class 'Invalid IPC message' is observed, not asserted: there OSError may also be a storage failure); "
+    "the exchange dispatcher after request reading (tokens, see C12/C13); WHEN the compression middleware raises (C17/C19) — how what it raises is rendered is inside; 401 body shape (C21); everything after request validation (the method call itself); the combined request space"
 )
 ASSUMPTIONS = [
     "_read_request / _deserialize_params / _validate_call_signature / _validate_params := one chosen step raises the chosen exception class (or the read returns ('other-name', {})) — "
@@ -610,3 +623,295 @@ def error_response_body_is_decodable_arrow(si: int, ei: int) -> bool:
         return False
     levels = [bytes(v) for k, v in md.items() if bytes(k).endswith(b"log_level")]
     return levels == [b"EXCEPTION"]
+
+
+# ---------------------------------------------------------------------------
+# (e) the exchange route: request reading of _run_stream_exchange_sync
+# ---------------------------------------------------------------------------
+
+# Classes pyarrow / the wire layer raise for client bytes (ArrowIOError is OSError: "Invalid IPC
+# message: negative metadata length"; a schema-only stream ends with StopIteration; ...).
+_WIRE_EXC = [pa.ArrowInvalid, OSError, StopIteration, EOFError, TypeError, KeyError, ValueError, IndexError, RpcError, VersionError, RuntimeError, NotImplementedError]
+_NWIRE = len(_WIRE_EXC)
+_XOUT = {"stage": 0, "kind": 0}
+
+
+def _wire_exc(i: int) -> BaseException:
+    for k in range(_NWIRE):
+        if i == k:
+            cls = _WIRE_EXC[k]
+            return RpcError("X", "boom", "") if cls is RpcError else cls("malformed IPC")
+    raise HarnessModelError("no such wire outcome")
+
+
+class _FakeIpcReader:
+    schema = pa.schema([])
+
+    def read_next_batch_with_custom_metadata(self):  # noqa: ANN201
+        if _XOUT["stage"] == 1:
+            raise _wire_exc(_XOUT["kind"])
+        return pa.RecordBatch.from_pylist([], schema=pa.schema([])), None  # a well-formed batch without a state token
+
+    def read_next_batch(self):  # noqa: ANN201
+        return self.read_next_batch_with_custom_metadata()[0]
+
+
+class _FakeIpc:
+    """pyarrow.ipc as seen by the exchange dispatcher: opening or reading the client's bytes fails
+    with the chosen class, or yields a batch that carries no state token."""
+
+    @staticmethod
+    def open_stream(stream):  # noqa: ANN001, ANN205
+        if _XOUT["stage"] == 0:
+            raise _wire_exc(_XOUT["kind"])
+        return _FakeIpcReader()
+
+    def __getattr__(self, name: str):
+        raise HarnessModelError(f"ipc.{name}: the exchange went past request reading")
+
+
+_exchange = reglobalize(_app_stream._run_stream_exchange_sync, ipc=_FakeIpc())
+
+
+class _XApp(_FakeApp):
+    def _stream_exchange_sync(self, method, stream):  # noqa: ANN001, ANN201
+        return _exchange(self, method, stream)
+
+
+class _XHolder:
+    _app = _XApp()
+
+
+def _replay_exchange(a: dict) -> str | None:
+    """Real app, real bytes: bodies for which pyarrow raises the class in question (where one is known)."""
+    cls = _WIRE_EXC[a["kind"]] if a["stage"] < 2 else None
+    bodies = {OSError: bytes.fromhex("fffffffffffffffe"), pa.ArrowInvalid: b"not an ipc stream at all....."}
+    body = bodies.get(cls) if cls is not None else None
+    if body is None:
+        k = _replay_exchange_kernel(a)
+        if k and a["stage"] < 2:
+            e2e = _replay_exchange({"stage": 0, "kind": _WIRE_EXC.index(OSError)})
+            if e2e:
+                k += " || same site, end to end on the real app: " + e2e
+        return k
+    client, _ran = _real_client()
+    r = client.post("http://x/fed/exchange", content=body, headers={"Content-Type": _ARROW_CONTENT_TYPE})
+    ctype = r.headers.get("content-type", "")
+    if r.status_code >= 500 or ctype != _ARROW_CONTENT_TYPE or r.status_code != 400:
+        return f"POST /fed/exchange with the {len(body)}-byte body {body[:12].hex()} (pyarrow raises {cls.__name__}) answers HTTP {r.status_code} {ctype} {r.content[:60]!r}; the mapping requires 400 with an Arrow error body"
+    return None
+
+
+def _replay_exchange_kernel(a: dict) -> str | None:
+    _XOUT["stage"], _XOUT["kind"] = a["stage"], a["kind"]
+    resp = falcon.Response()
+    post = reglobalize(_resources._ExchangeResource.on_post, _get_request_stream=_fake_stream)
+    try:
+        post(_XHolder(), _Req(_ARROW_CONTENT_TYPE), resp, _STREAM_NAME)
+    except Exception as e:  # noqa: BLE001
+        return f"exchange route, {('opening', 'reading')[a['stage'] % 2]} the request raises {type(e).__name__}: it escapes the resource (bare 500, JSON body)"
+    if str(resp.status)[:3] != "400":
+        return f"exchange route, request reading raises {_WIRE_EXC[a['kind']].__name__}: HTTP {resp.status}, the mapping requires 400"
+    return None
+
+
+_X_POST = reglobalize(_resources._ExchangeResource.on_post, _set_error_response=_recording_set_error_response, _get_request_stream=_fake_stream)
+
+
+@cond(q=40, t=120, encoded=[_app_stream._run_stream_exchange_sync, _resources._ExchangeResource.on_post],
+      stubs=["pyarrow.ipc := open_stream / read_next_batch_with_custom_metadata raise the chosen class, or yield a batch without state token", "_set_error_response := recorder + real _set_http_status", "falcon Request/Response := attribute bags"],
+      bound="failure while opening | while reading the first batch x %d exception classes, or a well-formed batch without token" % _NWIRE,
+      replay=_replay_exchange, signature=lambda a, c: "C15:exchange:request-decoding-error-escapes" if a["stage"] < 2 else "C15:exchange:missing-token-status")
+def exchange_request_reading_is_400_never_escapes(stage: int, kind: int) -> bool:
+    """
+    pre: 0 <= stage <= 2 and 0 <= kind < _NWIRE
+    post: _
+    """
+    # Inside this block only the client's bytes are decoded (no external fetch, no method code):
+    # whatever class the decoder raises, the caller sent a bad request => 400 Arrow error response.
+    _XOUT["stage"], _XOUT["kind"] = stage, kind
+    del _REC[:]
+    resp = _Resp()
+    try:
+        _X_POST(_XHolder(), _Req(_ARROW_CONTENT_TYPE), resp, _STREAM_NAME)
+    except Exception:  # noqa: BLE001
+        return False  # escapes the resource: Falcon's bare 500 + JSON
+    if _bare_5xx(resp) or len(_REC) != 1:
+        return False
+    return _REC[0][1] == HTTPStatus.BAD_REQUEST and resp.status == "400" and resp.content_type == _ARROW_CONTENT_TYPE
+
+
+# ---------------------------------------------------------------------------
+# (f) HTTP errors raised by the RPC-route middleware, rendered by the app's REAL error handling
+# ---------------------------------------------------------------------------
+
+import dataclasses  # noqa: E402
+import gzip  # noqa: E402
+import warnings  # noqa: E402
+from typing import Protocol  # noqa: E402
+
+import falcon.testing as _ft  # noqa: E402
+
+from vgi_rpc.http._testing import make_sync_client  # noqa: E402
+from vgi_rpc.http._unauthorized import AuthUnavailableError  # noqa: E402
+from vgi_rpc.rpc import Stream, StreamState  # noqa: E402
+
+
+@dataclasses.dataclass
+class _EchoState(StreamState):
+    n: int = 0
+
+    def process(self, input, out, ctx):  # noqa: A002, ANN001, ANN201
+        out.emit(input)
+
+
+class _RealSvc(Protocol):
+    def add(self, a: int) -> int: ...
+
+    def fed(self) -> Stream[_EchoState]: ...
+
+
+_REAL_RAN: list = []
+
+
+class _RealImpl:
+    def add(self, a: int) -> int:
+        _REAL_RAN.append("add")
+        return a
+
+    def fed(self) -> Stream[_EchoState]:
+        sch = pa.schema([pa.field("v", pa.int64())])
+        return Stream(output_schema=sch, state=_EchoState(), input_schema=sch)
+
+
+_CAP = 64
+_AUTH_MODE = {"mode": "reject"}
+
+
+def _authn(req):  # noqa: ANN001, ANN201
+    if _AUTH_MODE["mode"] == "down":
+        raise AuthUnavailableError("identity provider unreachable")
+    raise ValueError("bad credentials")
+
+
+def _real_client(auth: bool = False):  # noqa: ANN201
+    with warnings.catch_warnings():
+        warnings.simplefilter("ignore")
+        c = make_sync_client(RpcServer(_RealSvc, _RealImpl()), token_key=b"k" * 32, max_request_bytes=_CAP, authenticate=_authn if auth else None)
+    return c, _REAL_RAN
+
+
+_CLIENTS = [_real_client(False)[0], _real_client(True)[0]]
+_APPS = [c._client.app for c in _CLIENTS]
+
+
+def _mw(app, cls):  # noqa: ANN001, ANN201
+    found = [m for m in app._unprepared_middleware if isinstance(m, cls)]
+    if len(found) != 1:
+        raise RuntimeError(f"make_wsgi_app installs {len(found)} {cls.__name__}")
+    return found[0]
+
+
+def _raise_sites() -> set[tuple[str, str]]:
+    """(middleware class, falcon error class) of every `raise falcon.X(...)` in the live _middleware.py."""
+    tree = ast.parse(inspect.getsource(_middleware))
+    out = set()
+    for cls in [n for n in tree.body if isinstance(n, ast.ClassDef)]:
+        for n in ast.walk(cls):
+            if isinstance(n, ast.Raise) and isinstance(n.exc, ast.Call) and isinstance(n.exc.func, ast.Attribute) and isinstance(n.exc.func.value, ast.Name) and n.exc.func.value.id == "falcon":
+                out.add((cls.name, n.exc.func.attr))
+    return out
+
+
+_ROUTES = ["/add", "/fed/init", "/fed/exchange"]
+_ARROW_HDR = {"Content-Type": _ARROW_CONTENT_TYPE}
+
+# scenario -> (middleware class, falcon error class it is expected to raise, request headers, body, app index, auth mode)
+_SCENARIOS = [
+    ("_MaxRequestBytesMiddleware", "HTTPContentTooLarge", {}, b"x" * (_CAP + 36), 0, ""),
+    ("_CompressionMiddleware", "HTTPUnsupportedMediaType", {"Content-Encoding": "br"}, b"x", 0, ""),
+    ("_CompressionMiddleware", "HTTPBadRequest", {"Content-Encoding": "gzip"}, b"not gzip", 0, ""),
+    ("_CompressionMiddleware", "HTTPContentTooLarge", {"Content-Encoding": "gzip"}, gzip.compress(b"\x00" * 4096), 0, ""),
+    ("_AuthMiddleware", "HTTPUnauthorized", {}, b"x", 1, "reject"),
+    ("_AuthMiddleware", "HTTPServiceUnavailable", {}, b"x", 1, "down"),
+]
+_NSC = len(_SCENARIOS)
+_uncovered = _raise_sites() - {(s[0], s[1]) for s in _SCENARIOS}
+if _uncovered:
+    raise RuntimeError(f"falcon errors raised in _middleware.py without a scenario here: {sorted(_uncovered)}; harness out of date")
+_WANT_STATUS = {"HTTPContentTooLarge": 413, "HTTPUnsupportedMediaType": 415, "HTTPBadRequest": 400, "HTTPUnauthorized": 401, "HTTPServiceUnavailable": 503}
+
+
+def _arrow_exception_body(body: bytes) -> bool:
+    try:
+        _b, md = pa.ipc.open_stream(body).read_next_batch_with_custom_metadata()
+    except Exception:  # noqa: BLE001
+        return False
+    return md is not None and [bytes(v) for k, v in md.items() if bytes(k).endswith(b"log_level")] == [b"EXCEPTION"]
+
+
+def _scenario_outcome(si: int, ri: int):  # noqa: ANN201
+    """Run the REAL middleware of the REAL app on a real falcon.Request; hand what it raises to the
+    app's own exception handling (`App._handle_exception` -> the serializer make_wsgi_app installed)."""
+    mw_name, _err, hdrs, body, ai, mode = _SCENARIOS[si]
+    app = _APPS[ai]
+    _AUTH_MODE["mode"] = mode or "reject"
+    req = falcon.Request(_ft.create_environ(method="POST", path=_ROUTES[ri], headers={**_ARROW_HDR, **hdrs}, body=body))
+    resp = falcon.Response()
+    mw = _mw(app, getattr(_middleware, mw_name))
+    try:
+        mw.process_request(req, resp)
+    except falcon.HTTPError as e:
+        if not app._handle_exception(req, resp, e, {}):
+            return None
+        data = resp.render_body() or b""
+        return type(e).__name__, int(str(resp.status)[:3]), resp.content_type or "", data
+    return None
+
+
+def _verdict_rendering(si: int, ri: int) -> str | None:
+    got = _scenario_outcome(si, ri)
+    want_cls = _SCENARIOS[si][1]
+    if got is None:
+        return f"scenario {si}: the middleware did not raise / the app did not handle the error"
+    cls, status, ctype, data = got
+    if cls != want_cls:
+        return f"scenario {si}: raised {cls}, expected {want_cls}"
+    if status != _WANT_STATUS[want_cls]:
+        return f"{cls} on POST {_ROUTES[ri]}: HTTP {status}, the table says {_WANT_STATUS[want_cls]}"
+    if status in (401, 415, 503):
+        return None  # 401/415 are exempt from the Arrow-body rule; 503 (authority unreachable) is not client-controlled
+    if ctype != _ARROW_CONTENT_TYPE or not _arrow_exception_body(data):
+        return f"{status} raised by {_SCENARIOS[si][0]} on POST {_ROUTES[ri]} is rendered as {ctype} {data[:60]!r}: not a decodable Arrow IPC error stream (only 401 and 415 are exempt)"
+    return None
+
+
+def _replay_rendering(a: dict) -> str | None:
+    """The same request end to end through make_sync_client on the real app."""
+    _mwn, want_cls, hdrs, body, ai, mode = _SCENARIOS[a["si"]]
+    _AUTH_MODE["mode"] = mode or "reject"
+    r = _CLIENTS[ai].post("http://x" + _ROUTES[a["ri"]], content=body, headers={**_ARROW_HDR, **hdrs})
+    ctype = r.headers.get("content-type", "")
+    if r.status_code != _WANT_STATUS[want_cls]:
+        return f"POST {_ROUTES[a['ri']]} ({want_cls} scenario): HTTP {r.status_code}, the table says {_WANT_STATUS[want_cls]}"
+    if r.status_code in (401, 415, 503):
+        return None
+    if ctype != _ARROW_CONTENT_TYPE or not _arrow_exception_body(r.content):
+        return f"POST {_ROUTES[a['ri']]} with {len(body)} body bytes {hdrs or ''}: HTTP {r.status_code} {ctype} {r.content[:70]!r} — 400/413 must carry an Arrow IPC error stream (docs/WIRE_PROTOCOL.md §13); only 401 and 415 are exempt"
+    return None
+
+
+@cond(q=40, t=120, encoded=[_middleware._MaxRequestBytesMiddleware.process_request, _middleware._CompressionMiddleware.process_request, _middleware._AuthMiddleware.process_request],
+      stubs=["authenticate := rejects / reports the authority unreachable"],
+      bound="every `raise falcon.X` site of _middleware.py (AST scan, %d scenarios: declared oversize, unknown codec, undecodable body, decompression bomb, 401, 503) x 3 RPC routes; real falcon Request/Response, real app error handling" % _NSC,
+      replay=_replay_rendering, signature=lambda a, c: "C15:middleware-error:json-body-instead-of-arrow")
+def middleware_errors_are_rendered_as_arrow(si: int, ri: int) -> bool:
+    """
+    pre: 0 <= si < _NSC and 0 <= ri <= 2
+    post: _
+    """
+    for s in range(_NSC):
+        for r in range(3):
+            if si == s and ri == r:
+                return _verdict_rendering(s, r) is None
+    return False
